@@ -63,10 +63,8 @@ Definition probe_exceptions : list (string * string * Z) :=
   [ (* class 2: RegExp.prototype is not a complete RegExp: it matches like /(?:)/ (since b602a64,
        which repaired the Go nil dereference of test/exec) but still has no source, so
        RegExp.prototype.toString() prints /undefined/ *)
-    ("kind:RegExp.prototype", "[object RegExp],true,true,/undefined/", 2);
-    (* class 9: Date.prototype.toJSON answers null whenever ToNumber of the primitive is not finite,
-       also when the primitive is not a Number (Check.tojson_null_model) *)
-    ("gen:Date.toJSON.nonnumber", "||vo-bool", 9) ].
+    ("kind:RegExp.prototype", "[object RegExp],true,true,/undefined/", 2) ].
+  (* gen:Date.toJSON.nonnumber (class 9) was repaired by f1c4c70: it is a regression probe now *)
 
 Definition verdict (c : case) : Z * Z :=
   match c with
